@@ -21,6 +21,21 @@ COORDS = [
 FLAVOURS = ['plain', 'xml header + formalCharge attributes', 'empty bondArray element kept when no bonds']
 
 
+LONG_IDS = [('a1..an', lambda i: 'a%d' % (i + 1)), ('zero-padded, 17 characters', lambda i: 'atom_%012d' % (i * 7 + 3)), ('chain:residue:atom names of 20-30 characters', lambda i: 'chainA:residue%03d:%s%d' % (i // 4, 'CHON'[i % 4], i)),
+            ('long common prefix, differing after character 20', lambda i: 'linker_1_carboxylate_oxygen_%d_%s' % (i, 'ab'[i % 2])), ('16 characters exactly', lambda i: 'id%014d' % (i * 3 + 1))]
+
+
+def long_case(n, ii, order):
+    """chain molecule of n atoms (n - 1 bonds, plus a few ring closures): ids by scheme, atoms listed in a shuffled order"""
+    ids = [LONG_IDS[ii][1](i) for i in range(n)]
+    perm = list(range(n)) if order == 0 else [(i * 37 + 11) % n for i in range(n)] if n % 37 else [(i * 41 + 11) % n for i in range(n)]
+    assert sorted(perm) == list(range(n))
+    els = [ELS[i % len(ELS)] for i in range(n)]; xyz = [(1.5 * (i % 50), 1.1 * (i // 50), -0.25 * i) for i in range(n)]
+    chain = [(i, i + 1) for i in range(n - 1)] + [(0, n - 1), (n // 2, 3)]
+    bonds = [(perm.index(a), perm.index(b)) if (j % 3) else (perm.index(b), perm.index(a)) for j, (a, b) in enumerate(chain)]
+    return [ids[p] for p in perm], [els[p] for p in perm], [xyz[p] for p in perm], bonds
+
+
 def id_schemes(n):
     out = [('a1..an', ['a%d' % (i + 1) for i in range(n)]),
            ('reversed numbering', ['a%d' % (n - i) for i in range(n)]),
@@ -46,11 +61,12 @@ def plan(tier, seed):
             for ci in range(len(COORDS)):
                 for fl in range(len(FLAVOURS)):
                     scs.append(dict(n=n, scheme=si, coords=ci, flavour=fl))
+    scs += [dict(long=n, ids=i, order=o) for n in (200, 257, 258, 300, 1000) for i in range(len(LONG_IDS)) for o in (0, 1)]
     return dict(scenarios=scs, exhaustive=(tier == 'quick'), chunk=2, caps=[] if tier == 'quick' else ['n=5: bond sets of <= 3 pairs plus the complete graph only (n <= 4 is exhaustive)'],
                 menus=dict(n_atoms=list(range(1, N + 1)), id_schemes=[x[0] for x in id_schemes(3)], coords=[c[0] for c in COORDS], flavours=FLAVOURS,
                            bond_sets='every subset of the pairs for n<=4; for n=5 every subset of <=3 pairs plus the full set', directions=['forward', 'reversed', 'alternating'],
                            bond_order=['document', 'reversed'], routes=['load_cml(path)', 'load_cml(file)', 'Atoms.load(path)', "Atoms.load(file, 'cml')", "Atoms.load(path.v2.txt, filetype='cml')"]),
-                bounds=dict(max_atoms=N), rule='one scenario per (n, id scheme, coordinates, flavour); all bond sets x directions x orders x routes inside; non-trivial = at least one bond and a non-sequential id scheme',
+                bounds=dict(max_atoms=N, long_molecules=[200, 257, 258, 300, 1000]), rule='one scenario per (n, id scheme, coordinates, flavour); all bond sets x directions x orders x routes inside; non-trivial = at least one bond and a non-sequential id scheme',
                 assumptions=['documents are of the Avogadro flavour without XML namespace, as the repository example files'])
 
 
@@ -71,6 +87,36 @@ _tmp = {}
 
 def run(sc, ctx):
     out = dict(evals=0, compared=0, violations=[], outcomes={}, hashes=set(), nontrivial=0)
+    if 'long' in sc:
+        ids, els, xyz, bonds = long_case(sc['long'], sc['ids'], sc['order'])
+        text = write_cml(ids, els, xyz, bonds, flavour=sc['order'])
+        if 'dir' not in _tmp:
+            _tmp['dir'] = tempfile.mkdtemp(prefix='mofun-verif-c16-')
+            import atexit, shutil
+            atexit.register(shutil.rmtree, _tmp['dir'], True)
+        path = os.path.join(_tmp['dir'], 'long%d.cml' % os.getpid())
+        with open(path, 'w') as f:
+            f.write(text)
+        for rname, fn in (('load_cml(path)', lambda: Atoms.load_cml(path)), ('load_cml(file)', lambda: Atoms.load_cml(io.StringIO(text))), ('Atoms.load(path)', lambda: Atoms.load(path))):
+            a, err = call(fn)
+            out['evals'] += 1; out['compared'] += 1
+            what = '%s, molecule of %d atoms and %d bonds, ids "%s"' % (rname, len(ids), len(bonds), LONG_IDS[sc['ids']][0])
+            if err:
+                out['violations'].append(viol('cml-load', 'long-exc:' + exc_sig(err), '%s raised %r' % (what, err[0]), sc)); continue
+            bad = None
+            if list(a.elements) != els:
+                bad = 'elements differ from the document'
+            elif np.asarray(a.positions).shape != (len(ids), 3) or np.abs(np.asarray(a.positions) - np.array(xyz)).max() > 0:
+                bad = 'positions differ from the document'
+            elif [tuple(int(x) for x in b) for b in np.asarray(a.bonds).reshape(-1, 2)] != bonds:
+                got = [tuple(int(x) for x in b) for b in np.asarray(a.bonds).reshape(-1, 2)]
+                bad = 'bonds differ from the document: %d read, %d written, first difference %r' % (len(got), len(bonds), [(g, b) for g, b in zip(got, bonds) if g != b][:2])
+            elif len(a.bond_types) != len(bonds):
+                bad = '%d bond types for %d bonds' % (len(a.bond_types), len(bonds))
+            if bad:
+                out['violations'].append(viol('cml-load', 'long-content', '%s: %s' % (what, bad), sc))
+        out['hashes'].add(h64(text)); out['nontrivial'] += 1; out['outcomes']['long molecule'] = 1
+        return out
     n = sc['n']; sname, ids = id_schemes(n)[sc['scheme']]
     els = ELS[:n]; xyz = [COORDS[sc['coords']][1](i) for i in range(n)]
     if 'dir' not in _tmp:
